@@ -6,6 +6,7 @@ import torch
 import torch.nn as nn
 import torch.optim as optim
 from gymnasium import spaces
+from tensordict import TensorDictBase
 from numpy.typing import ArrayLike
 from torch.nn.utils import clip_grad_norm_
 
@@ -218,7 +219,14 @@ class CQN(RLAlgorithm):
         :return: Loss from learning
         :rtype: float
         """
-        states, actions, rewards, next_states, dones = experiences
+        if isinstance(experiences, TensorDictBase):
+            states = experiences["obs"]
+            actions = experiences["action"]
+            rewards = experiences["reward"]
+            next_states = experiences["next_obs"]
+            dones = experiences["done"]
+        else:
+            states, actions, rewards, next_states, dones = experiences
         if self.accelerator is not None:
             actions = actions.to(self.accelerator.device)
             rewards = rewards.to(self.accelerator.device)
